@@ -47,6 +47,9 @@ def strat_sample(tier):
             'outputs_order': st.one_of(st.none(), st.integers(0, 1000)),
             # whole-number columns stored as integer arrays (integer-valued parameters, e.g. a randint prior)
             'int_cols': st.sampled_from([False, False, True]),
+            # the weights are handed to the constructor, or assigned to the finished object (`sample.weights = w`, as SMC does for
+            # its populations)
+            'weights_late': st.booleans(),
         })
     return st.tuples(st.lists(st.sampled_from(PN), min_size=1, max_size=4, unique=True), st.integers(1, 60)).flatmap(build)
 
@@ -80,8 +83,11 @@ def run_sample(case):
     w = None if case['weights'] is None else np.array(case['weights'], dtype=float)
     ctx = 'names=%r n=%d weights=%s formats=%r outputs keyed %r' % (names, n, 'yes' if w is not None else 'none', case['formats'], list(outputs))
     with must_not_raise(P, 'constructing the Sample; ' + ctx):
+        late = bool(case.get('weights_late')) and w is not None
         s = Sample(method_name='test', outputs={k: v.copy() for k, v in outputs.items()}, parameter_names=list(names),
-                   discrepancy_name='d' if 'd' in outputs else None, weights=None if w is None else w.copy(), n_sim=3 * n)
+                   discrepancy_name='d' if 'd' in outputs else None, weights=None if (w is None or late) else w.copy(), n_sim=3 * n)
+        if late:
+            s.weights = w.copy()
         arr = np.asarray(s.samples_array)
     if arr.shape != (n, len(names)):
         raise Violation('C16:samples-array-shape', 'samples_array has shape %r for %d samples of %d parameters; %s' % (arr.shape, n, len(names), ctx))
@@ -275,6 +281,9 @@ def strat_diag(tier):
         'a': st.one_of(st.tuples(st.sampled_from([-1.0, 1.0]), st.integers(-60, 60)).map(lambda t: t[0] * 2.0 ** t[1]),
                        st.floats(0.01, 100.0), st.floats(-100.0, -0.01), st.floats(1e-9, 1e-3), st.floats(1e3, 1e9)),
         'b': st.floats(-10.0, 10.0, allow_nan=False), 'perm_seed': st.integers(0, 10 ** 6),
+        # chains far from the origin relative to their spread (a parameter near 3e6 with unit spread): the rounding of the
+        # shifted data itself is ~1e-16 * shift, the tolerance below accounts for it
+        'far': st.sampled_from([0.0, 0.0, 1e5, -3e6]),
     })
 
 
@@ -337,14 +346,18 @@ def run_diag(case):
     if border:
         labels.append('borderline-truncation')
     # affine map
-    y = case['a'] * ch + case['b'] * abs(case['a'])
+    btot = case['b'] + case.get('far', 0.0)
+    y = case['a'] * ch + btot * abs(case['a'])
     e2 = float(eff_sample_size(y))
     r2 = float(gelman_rubin_statistic(y))
     _, border2 = ref_ess(y)
-    if not (border or border2) and not abs(e2 - ess) <= 1e-6 * abs(ess):
-        raise Violation('C16:ess-not-affine-invariant', 'ESS %r becomes %r under x -> %r x + %r; %s' % (ess, e2, case['a'], case['b'], ctx))
-    if not abs(r2 - rhat) <= 1e-6 * abs(rhat):
-        raise Violation('C16:rhat-not-affine-invariant', 'R-hat %r becomes %r under x -> %r x + %r; %s' % (rhat, r2, case['a'], case['b'], ctx))
+    atol = 1e-6 + 1e-13 * abs(btot)
+    if case.get('far'):
+        labels.append('far-from-origin')
+    if not (border or border2) and not abs(e2 - ess) <= atol * abs(ess):
+        raise Violation('C16:ess-not-affine-invariant', 'ESS %r becomes %r under x -> %r x + %r |a|; %s' % (ess, e2, case['a'], btot, ctx))
+    if not abs(r2 - rhat) <= atol * abs(rhat):
+        raise Violation('C16:rhat-not-affine-invariant', 'R-hat %r becomes %r under x -> %r x + %r |a|; %s' % (rhat, r2, case['a'], btot, ctx))
     # chain permutation
     perm = np.random.RandomState(case['perm_seed']).permutation(M)
     e3 = float(eff_sample_size(ch[perm]))
@@ -362,7 +375,7 @@ CHECK = Check(
           'finite doubles incl. -0.0, 1e-300, 5e-324, |x| up to 1e150, saved to any sequence of pickle/json/csv and read back with the '
           'standard library; bolfi: chains (1-5 x 2-40 x 1-4) whose entries encode (chain, iteration, parameter) with every warm-up '
           'length; smc-bsl-samples: BslSample burn-in removal and SmcSample with 1-4 populations saved as json/pickle/csv; diagnostics: 1-6 AR(1) chains of length 4-120 (thorough 200) vs naive reference formulas, affine maps a x + b with '
-          'a = +-2^k (k in -60..60) or generic over 1e-9..1e9, chain permutations. Non-trivial: >= 2 parameters in non-alphabetical order; >= 2 chains with warm-up > 0; '
+          'a = +-2^k (k in -60..60) or generic over 1e-9..1e9 and b up to 3e6 |a| (chains far from the origin), chain permutations. Non-trivial: >= 2 parameters in non-alphabetical order; >= 2 chains with warm-up > 0; '
           '>= 2 chains (diagnostics).'),
     parts=[Part('sample', run_sample, strategy=strat_sample, examples={'quick': 500, 'thorough': 32000}),
            Part('bolfi-sample', run_bolfi, strategy=strat_bolfi, examples={'quick': 300, 'thorough': 16000}),
